@@ -514,13 +514,13 @@ func RunHarness(ex *Exec, s *Solver, h *ssa.Function, maxPaths int, budget time.
 		switch pr.outcome {
 		case "ok":
 			res.PathsOK++
-			if len(res.Samples) < 3 || (len(res.Witnesses) < x.wantWit) {
+			if len(res.Samples) < 3 || len(res.Witnesses) < x.wantWit {
 				if s.Check() == "sat" {
 					m := x.model()
 					if len(res.Samples) < 3 {
 						res.Samples = append(res.Samples, PathSample{Path: x.pathIdx, Outcome: "ok", Model: m, Notes: copyNotes(x.notes)})
 					}
-					if len(res.Witnesses) < x.wantWit && len(x.observed) > 0 {
+					if len(res.Witnesses) < x.wantWit {
 						if w, ok := x.witness(m); ok {
 							res.Witnesses = append(res.Witnesses, w)
 						}
